@@ -9,6 +9,7 @@ package main
 import (
 	"bytes"
 	"fmt"
+	"io"
 	"strings"
 
 	"pault.ag/go/debian/control"
@@ -158,7 +159,7 @@ func writeParas(r *rt.Run, api string, paras []control.Paragraph, w *simio.Write
 }
 
 // writeBody writes the paragraphs through one of the APIs (inside a task).
-func writeBody(api string, paras []control.Paragraph, w *simio.Writer) (err error) {
+func writeBody(api string, paras []control.Paragraph, w io.Writer) (err error) {
 	func() {
 		switch api {
 		case "WriteTo":
@@ -571,9 +572,21 @@ func runC08(r *rt.Run, tier string) {
 	}
 	r.Event("workload", api, fmt.Sprintf("paras=%d docfirst=%v faulty=%v", len(paras), docFirst, faulty))
 
-	// fault-free reference output
+	// fault-free reference output (the sink may be handed in as a standard concrete type)
 	w0 := simio.NewWriter(r, "sink0")
-	err, task := writeParas(r, api, paras, w0)
+	var w0T io.Writer = w0
+	flush0 := func() error { return nil }
+	if !faulty {
+		// (the fault-injecting configurations place their faults by the write
+		// calls the library itself makes on the reference sink)
+		w0T, flush0 = typedWriter(r, w0)
+	}
+	var err error
+	task := r.Solo("writer:"+api, func() {
+		if err = writeBody(api, paras, w0T); err == nil {
+			err = flush0()
+		}
+	})
 	if taskTrouble(r, "C08", api, task) {
 		return
 	}
